@@ -81,6 +81,11 @@ def exampleDna12 : DNA :=
 
 example : Valid exampleSpec12 exampleDna12 ∧ viewNorm exampleDna12 = true := by decide
 example : exampleSpec12.fromNumbers (flat exampleDna12) = some exampleDna12 := by decide
+example : exampleSpec12.noCustom = true := by decide
+/-- The hypotheses of `C12_views_of_rebuilt` are satisfiable (by the binding of the example DNA). -/
+example : ∃ b, Aligned exampleSpec12 b ∧ Valid exampleSpec12 b.erase := by
+  obtain ⟨b, _, he, ha⟩ := C12_bound_aligned exampleSpec12 exampleDna12 (by decide)
+  exact ⟨b, ha, by rw [he]; decide⟩
 
 /-! ### F21b (fixed): what `to_numbers(flatten=False)` did before the fix -/
 
